@@ -211,7 +211,7 @@ func GenC07(seed, index uint64) *Workload {
 				op.K = "compile"
 			case isShared(e) && r.P(3, 4):
 				op.K = "esearch"
-			case !storm && r.P(1, 2):
+			case r.P(1, 2):
 				op.K = "search"
 			case r.P(1, 8):
 				op.K = "mustcompile"
